@@ -96,6 +96,27 @@ func parseBool(b byte) (bool, error) {
 	return b != 0, nil
 }
 
+// parseSignedInt64 parses the contents octets of an INTEGER or ENUMERATED:
+// big-endian two's complement, at least one octet.
+func parseSignedInt64(bytes []byte) (r int64, e error) {
+	if len(bytes) == 0 {
+		e = fmt.Errorf("zero length INTEGER")
+		return r, e
+	}
+	if len(bytes) > 8 {
+		e = fmt.Errorf("out of range of int64")
+		return r, e
+	}
+	if bytes[0]&0x80 != 0 {
+		r = -1
+	}
+	for _, b := range bytes {
+		r <<= 8
+		r |= int64(b)
+	}
+	return r, e
+}
+
 // ParseField is the main parsing function. Given a byte slice containing type value,
 // it will try to parse a suitable ASN.1 value out and store it
 // in the given Value. TODO : ObjectIdenfier
@@ -134,8 +155,8 @@ func ParseField(v reflect.Value, bytes []byte, params fieldParameters) error {
 		v.Set(reflect.ValueOf(val))
 		return nil
 	case EnumeratedType:
-		val, parse_err := parseInt64(bytes[talOff:])
-		if err != nil {
+		val, parse_err := parseSignedInt64(bytes[talOff:])
+		if parse_err != nil {
 			return parse_err
 		}
 
@@ -155,7 +176,7 @@ func ParseField(v reflect.Value, bytes []byte, params fieldParameters) error {
 			return nil
 		}
 	case reflect.Int, reflect.Int32, reflect.Int64:
-		if parsedInt, parse_err := parseInt64(bytes[talOff:]); err != nil {
+		if parsedInt, parse_err := parseSignedInt64(bytes[talOff:]); parse_err != nil {
 			return parse_err
 		} else {
 			val.SetInt(parsedInt)
